@@ -33,6 +33,7 @@ structure Inst where
   timerDue : Option Nat := none
   verify : Option VPhase := none
   mustDemote : Option Nat := none      -- the model has decided to demote at that instant
+  readAt : Nat := 0                    -- when the verification's first read was answered (phase `read`)
   deriving Repr, Inhabited
 
 /-! ### Decision logic -/
@@ -88,6 +89,16 @@ def step (s : State) (te : TEv) : R State :=
   match s.insts.find? (fun (x : Inst) => match x.mustDemote with | some d => decide (d < t) | none => false) with
   | some x => reject s!"instance {x.cfg.id}: the connection mechanism demotes at {repr x.mustDemote} but the flag is still raised at {t}"
   | none =>
+  -- the verification does not dawdle: when the settle time is over a leader issues its read at that instant, and the
+  -- validation read follows the first one's answer at once (an instance that no longer leads just ends its verification)
+  match s.insts.find? (fun (x : Inst) => x.cfg.connMon && x.flag &&
+      (match x.verify with | some (.settle at_) => decide (at_ < t) | some .read => decide (x.readAt < t) | _ => false)) with
+  | some x => reject s!"instance {x.cfg.id}: a reconnect notification found it leading, but the verification's next read was not issued when it was due (phase {repr x.verify}, now {t})"
+  | none =>
+  let s : State := { s with insts := s.insts.map fun (x : Inst) =>
+    match x.verify with
+    | some (.settle at_) => if at_ < t then { x with verify := none } else x
+    | _ => x }
   match te.ev with
   | .end_ => pure { s with ended := true }
   | .inst c => pure { s with insts := s.insts ++ [{ cfg := c }] }
@@ -129,7 +140,7 @@ def step (s : State) (te : TEv) : R State :=
       | some (.test _) =>
         (match r with
          | .err _ => pure (s.set { x with verify := none, mustDemote := if x.flag then some t else x.mustDemote })
-         | .ok _ _ => pure (s.set { x with verify := some .read }))
+         | .ok _ _ => pure (s.set { x with verify := some .read, readAt := t }))
       | some (.validate _ tok) =>
         if verifyVerdict x tok r then pure (s.set { x with verify := none })
         else pure (s.set { x with verify := none, mustDemote := if x.flag then some t else x.mustDemote })
